@@ -6,6 +6,8 @@ pub mod packetizer;
 pub mod pipeline;
 pub mod spsc;
 pub mod track;
+#[cfg(rustrtc_verif)]
+pub mod verif_sched;
 
 pub use depacketizer::{Depacketizer, H264Depacketizer, PassThroughDepacketizer};
 pub use error::{MediaError, MediaResult};
